@@ -376,10 +376,13 @@ impl<T> SlotMap<T> {
         self.next_free
     }
 
-    /// Sets the generation of an occupied slot. `generation` must be odd.
+    /// Sets the generation of an occupied slot. `generation` must be odd and must not go
+    /// backwards (otherwise keys issued earlier could become valid again).
     pub(crate) fn verif_set_generation(&mut self, index: u32, generation: u32) -> bool {
         match self.slots.get_mut(index as usize) {
-            Some(slot) if !slot.is_vacant() && generation % 2 == 1 => {
+            Some(slot)
+                if !slot.is_vacant() && generation % 2 == 1 && generation >= slot.generation =>
+            {
                 slot.generation = generation;
                 true
             }
